@@ -1,6 +1,8 @@
 package json
 
 import (
+	stdjson "encoding/json"
+
 	hcl "Havoc/pkg/profile/yaotl"
 )
 
@@ -89,3 +91,87 @@ func H_c17_json_scan() {
 }
 
 func hclPos1() hcl.Pos { return hcl.Pos{Byte: 0, Line: 1, Column: 1} }
+
+// encoding/json.Unmarshal as this parser uses it: validating a number token and decoding a
+// string token. Over-approximated: the call may fail for any token (both outcomes explored);
+// a string token without escape sequences decodes to its content, one with escapes to its raw
+// content (structure, not string content, is what the obligations below are about).
+//
+//verif:stub-if jsonparse encoding/json.Unmarshal
+func verifStubJSONUnmarshal(data []byte, v any) error {
+	if nondet_bool("token-rejected-by-encoding-json") {
+		return verifErrJSON
+	}
+	if n, ok := v.(*stdjson.Number); ok {
+		*n = stdjson.Number(string(data))
+		return nil
+	}
+	if p, ok := v.(*string); ok {
+		if len(data) >= 2 {
+			*p = string(data[1 : len(data)-1])
+		}
+		return nil
+	}
+	verif_fail("json.Unmarshal target not modelled")
+	return nil
+}
+
+var verifErrJSON = stdjsonError("verif: token rejected")
+
+type stdjsonError string
+
+func (e stdjsonError) Error() string { return string(e) }
+
+const verifJSONSkeleton = "{\"a\":\"x\",\"n\":1.5,\"b\":[{\"c\":true},null,-2e3],\"d\":{}}"
+
+func verifJSONParseCheck(src []byte) {
+	L := len(src)
+	f, diags := Parse(src, "f")
+	verif_assert(f != nil, "Parse always returns a file")
+	for _, d := range diags {
+		if d.Subject != nil {
+			verif_assert(d.Subject.Start.Byte >= 0, "diagnostic range starts inside the input")
+			verif_assert(d.Subject.End.Byte <= L, "diagnostic range ends inside the input")
+			verif_assert(d.Subject.Start.Byte <= d.Subject.End.Byte, "diagnostic range is not inverted")
+		}
+	}
+	if f != nil {
+		if !diags.HasErrors() {
+			// an input without error diagnostics can be used as a body without panicking
+			attrs, _ := f.Body.JustAttributes()
+			for _, a := range attrs {
+				verif_assert(a.Range.Start.Byte >= 0, "attribute range starts inside the input")
+				verif_assert(a.Range.End.Byte <= L, "attribute range ends inside the input")
+				_, vd := a.Expr.Value(nil)
+				_ = vd
+			}
+		}
+	}
+}
+
+// H_c17_json_parse: the JSON syntax entry point on every byte string of length 0..L and on
+// every single-byte mutation of a document with strings, numbers, keywords, arrays and nested
+// objects: it returns (no panic, no endless loop) with a body and/or diagnostics, every
+// diagnostic and attribute range lies inside the input, and an error-free document can be
+// read as attributes and evaluated without panicking.
+func H_c17_json_parse() {
+	slice := nondet_choice("kind-x-quarter", 8)
+	if slice < 4 {
+		L := nondet_choice("L", verif_bound("json-parse-maxL", 2, 3)+1)
+		src := nondet_bytes("src", L)
+		if L == 0 {
+			verif_assume(slice == 0)
+		} else {
+			verif_assume(int(src[0]>>6) == slice)
+		}
+		verifJSONParseCheck(src)
+	} else {
+		q := slice - 4
+		src := []byte(verifJSONSkeleton)
+		lo, hi := q*len(src)/4, (q+1)*len(src)/4
+		p := lo + nondet_choice("position", hi-lo)
+		src[p] = nondet_u8("byte")
+		verifJSONParseCheck(src)
+	}
+	verif_witness()
+}
